@@ -217,6 +217,13 @@ func boundLemmas(hyps []*Term, all []*Term) []*Term {
 		for _, a := range t.Args {
 			rec(a, underQ)
 		}
+		if t.Op == "mod" && !underQ && t.Args[1].IsConst() && t.Args[1].Val.Sign() > 0 && !t.Args[0].IsConst() {
+			x := bc.of(t.Args[0])
+			if x.lo != nil && x.hi != nil && x.lo.Sign() >= 0 && x.hi.Cmp(t.Args[1].Val) < 0 {
+				a := t.Args[0]
+				out = append(out, Implies(And(Le(IntC(x.lo), a), Le(a, IntC(x.hi))), Eq(t, a)))
+			}
+		}
 		if t.Op == "*" && !underQ && !t.Args[0].IsConst() && !t.Args[1].IsConst() {
 			x, y := bc.of(t.Args[0]), bc.of(t.Args[1])
 			if x.lo != nil && x.hi != nil && y.lo != nil && y.hi != nil && x.lo.Sign() >= 0 && y.lo.Sign() >= 0 {
